@@ -19,14 +19,14 @@ A_GENERIC = ("generic method dispatch (janet_binop_call / janet_mcall / janet_un
              "which method is found and what it computes is the contract of the operand's type (int/s64, int/u64: C14 units)")
 A_PANIC = "janet_panic* do not return (prelude.h): 'raises' is observed as 'does not reach the next instruction'"
 common = dict(props=["C15", "C02"], tier="quick", **{"class": "bounded"}, bound=BOUND, src=["vm.c"], link=["fiber.c", "wrap.c"],
-  link_keep={"fiber.c": ["janet_fiber_status"], "wrap.c": WRAP},
+  link_keep={"fiber.c": ["janet_fiber_status", "janet_env_valid"], "wrap.c": WRAP},
   harness=["vm_ops.c"], pre=["vm_switch_pre.h"], mode="plain", nanbox=False, replace_calls=STUBS,
   functions=["run_vm"], checks=["bounds-check", "pointer-check", "signed-overflow-check"], unwind=20, unwinding_assertions=True, timeout=600,
   undecided_clauses=["the obligation count includes the (trivially discharged) checks of the opcode bodies that the one-instruction program cannot reach",
                      "operand register numbers and immediates other than the enumerated ones (the opcode bodies do not depend on them other than as indices/values)"])
 units = []
-# doubles: the result is compared with the same C expression evaluated in the harness; z3's floating-point theory closes that by congruence (SAT bit-blasting of two adders/dividers does not finish)
-FP = ["--z3", "--fpa"]
+# doubles: the result is compared with the same C expression evaluated in the harness; cvc5's floating-point theory closes that by congruence (z3 bit-blasts as soon as there is more than one instruction instance) (SAT bit-blasting of two adders/dividers does not finish)
+FP = ["--cvc5", "--fpa"]
 def U(**k):
     u = dict(common); u.update(k)
     u["assumes"] = [A_STEP, A_GC, A_PANIC] + k.get("assumes", [])
@@ -141,6 +141,88 @@ U(id="vm.op.neq.imm", entry="h_vo_eqop_imm", defines=["-DVO_NEQ"],
 U(id="vm.op.cmp", entry="h_vo_cmp3", defines=["-DVO_CMP3"], assumes=[A_CMP],
   clause="JOP_COMPARE (cmp): janet_compare is called exactly once with the two operands in order and the destination receives its three-way result as a number; no other slot changes; next instruction",
   mutants=[M("operands-swapped", "janet_wrap_integer(janet_compare(stack[B], stack[C]))", "janet_wrap_integer(janet_compare(stack[C], stack[B]))", "in order")])
+
+
+# ---------------------------------------------------------------- group 4: data access
+A_ACC = "the data-access function (janet_in / janet_get / janet_put / janet_getindex / janet_putindex / janet_lengthv / janet_next_impl) returns any value or raises and does not write the caller's frame; what it computes is the subject of the C04/C15 get/put units"
+NEXT3 = "; no other slot changes; execution continues at the next instruction"
+U(id="vm.op.in", entry="h_vo_get_like", defines=["-DVO_IN"], assumes=[A_ACC],
+  clause="JOP_IN (in ds key): janet_in is called exactly once with (first operand, second operand) and its result goes to the destination" + NEXT3,
+  mutants=[M("operands-swapped", "stack[A] = janet_in(stack[B], stack[C]);", "stack[A] = janet_in(stack[C], stack[B]);", "data structure, key"),
+           M("get-instead-of-in", "stack[A] = janet_in(stack[B], stack[C]);", "stack[A] = janet_get(stack[B], stack[C]);", "named after")])
+U(id="vm.op.get", entry="h_vo_get_like", defines=["-DVO_GET"], assumes=[A_ACC],
+  clause="JOP_GET (get ds key): janet_get is called exactly once with (first operand, second operand) and its result goes to the destination" + NEXT3,
+  mutants=[M("operands-swapped", "stack[A] = janet_get(stack[B], stack[C]);", "stack[A] = janet_get(stack[C], stack[B]);", "data structure, key"),
+           M("in-instead-of-get", "stack[A] = janet_get(stack[B], stack[C]);", "stack[A] = janet_in(stack[B], stack[C]);", "named after")])
+U(id="vm.op.next", entry="h_vo_get_like", defines=["-DVO_NEXT"], assumes=[A_ACC],
+  clause="JOP_NEXT (next ds key): the next-key function is called exactly once with (first operand, second operand) and its result goes to the destination" + NEXT3,
+  mutants=[M("operands-swapped", "janet_next_impl(stack[B], stack[C], 1);", "janet_next_impl(stack[C], stack[B], 1);", "data structure, key"),
+           M("result-to-wrong-slot", "        vm_restore();\n        stack[A] = temp;", "        vm_restore();\n        stack[B] = temp;", "destination slot|other slot")])
+U(id="vm.op.put", entry="h_vo_put", defines=["-DVO_PUT"], assumes=[A_ACC],
+  clause="JOP_PUT (put ds key value): janet_put is called exactly once with (A, B, C) = (data structure, key, value); no slot changes (put has no destination); execution continues at the next instruction",
+  mutants=[M("key-value-swapped", "janet_put(stack[A], stack[B], stack[C]);", "janet_put(stack[A], stack[C], stack[B]);", "data structure, key, value"),
+           M("useval-mark-dropped", "    fiber->flags |= JANET_FIBER_RESUME_NO_USEVAL;\n    janet_put(", "    janet_put(", "no destination")])
+U(id="vm.op.getindex", entry="h_vo_index", defines=["-DVO_GETINDEX"], assumes=[A_ACC],
+  clause="JOP_GET_INDEX: janet_getindex is called exactly once with (operand, unsigned-byte immediate index) and its result goes to the destination" + NEXT3,
+  mutants=[M("signed-index", "stack[A] = janet_getindex(stack[B], C);", "stack[A] = janet_getindex(stack[B], CS);", "unsigned byte"),
+           M("wrong-ds", "stack[A] = janet_getindex(stack[B], C);", "stack[A] = janet_getindex(stack[A], C);", "data structure, index")])
+U(id="vm.op.putindex", entry="h_vo_index", defines=["-DVO_PUTINDEX"], assumes=[A_ACC],
+  clause="JOP_PUT_INDEX: janet_putindex is called exactly once with (A, unsigned-byte immediate index, B) = (data structure, index, value); no slot changes; execution continues at the next instruction",
+  mutants=[M("ds-value-swapped", "janet_putindex(stack[A], C, stack[B]);", "janet_putindex(stack[B], C, stack[A]);", "data structure, index, value")])
+U(id="vm.op.length", entry="h_vo_length", defines=["-DVO_LENGTH"], assumes=[A_ACC],
+  clause="JOP_LENGTH (length ds): janet_lengthv is called exactly once with the operand and its result goes to the destination" + NEXT3,
+  mutants=[M("operand-is-dest", "stack[A] = janet_lengthv(stack[E]);", "stack[A] = janet_lengthv(stack[A]);", "receives the operand")])
+
+# ---------------------------------------------------------------- group 5: moves, loads, jumps, typecheck, error, return
+U(id="vm.op.move", entry="h_vo_move", defines=["-DVO_MOVE"],
+  clause="JOP_MOVE_NEAR (A <- 16-bit register E) and JOP_MOVE_FAR (16-bit register E <- A): the destination slot holds the source slot's value unchanged; no other slot changes; next instruction",
+  mutants=[M("near-direction", "VM_OP(JOP_MOVE_NEAR)\n    stack[A] = stack[E];", "VM_OP(JOP_MOVE_NEAR)\n    stack[E] = stack[A];", "source slot|other slot"),
+           M("far-direction", "VM_OP(JOP_MOVE_FAR)\n    stack[E] = stack[A];", "VM_OP(JOP_MOVE_FAR)\n    stack[A] = stack[E];", "source slot|other slot")])
+U(id="vm.op.load.const", entry="h_vo_loadk", defines=["-DVO_LOADK"],
+  clause="JOP_LOAD_NIL / LOAD_TRUE / LOAD_FALSE / LOAD_SELF: the destination slot (24-bit register D) holds exactly nil / true / false / the function whose frame is running; no other slot changes; next instruction",
+  mutants=[M("true-false-swapped", "VM_OP(JOP_LOAD_TRUE)\n    stack[D] = janet_wrap_true();", "VM_OP(JOP_LOAD_TRUE)\n    stack[D] = janet_wrap_false();", "documented constant"),
+           M("nil-to-A", "VM_OP(JOP_LOAD_NIL)\n    stack[D] = janet_wrap_nil();", "VM_OP(JOP_LOAD_NIL)\n    stack[A + 1] = janet_wrap_nil();", "documented constant|other slot")])
+U(id="vm.op.load.int", entry="h_vo_loadi", defines=["-DVO_LOADI"], cbmc=FP,
+  clause="JOP_LOAD_INTEGER: the destination slot holds the signed 16-bit immediate as a number (-32768 .. 32767); no other slot changes; next instruction",
+  mutants=[M("unsigned-immediate", "stack[A] = janet_wrap_integer(ES);", "stack[A] = janet_wrap_integer(E);", "signed 16-bit")])
+U(id="vm.op.load.constant", entry="h_vo_loadc", defines=["-DVO_LOADC"],
+  clause="JOP_LOAD_CONSTANT: the destination slot holds the function's constant number E unchanged; an index outside the constants raises; constants and other slots do not change; next instruction",
+  mutants=[M("bound-off-by-one", "vm_assert(cindex < func->def->constants_length, \"invalid constant\");", "vm_assert(cindex <= func->def->constants_length, \"invalid constant\");", "outside the function's constants|upper bound|dereference"),
+           M("index-minus-one", "stack[A] = func->def->constants[cindex];", "stack[A] = func->def->constants[cindex > 0 ? cindex - 1 : 0];", "indexed constant")])
+UPV_ASS = ["the function has three environments: a closed one (values in the environment), an open one on another fiber's stack and an open one that is the running frame itself; environments needing re-validation after unmarshalling (negative offset) are not covered"]
+U(id="vm.op.upvalue.load", entry="h_vo_upvalue_load", defines=["-DVO_UPVALUE"], assumes=UPV_ASS,
+  clause="JOP_LOAD_UPVALUE: the destination slot receives the current value of upvalue C of environment B - from the environment when it is closed, from the owning fiber's stack when it is still open (including the running frame itself); a bad environment or upvalue index raises; nothing else changes; next instruction",
+  mutants=[M("open-closed-confused", "        if (env->offset > 0) {\n            /* On stack */\n            stack[A] = env->as.fiber->data[env->offset + vindex];", "        if (env->offset < 0) {\n            /* On stack */\n            stack[A] = env->as.fiber->data[env->offset + vindex];", "upvalue's current value|dereference|bounds"),
+           M("length-check-off-by-one", "        vm_assert(env->length > vindex, \"invalid upvalue index\");\n        vm_assert(janet_env_valid(env), \"invalid upvalue environment\");\n        if (env->offset > 0) {\n            /* On stack */", "        vm_assert(env->length >= vindex, \"invalid upvalue index\");\n        vm_assert(janet_env_valid(env), \"invalid upvalue environment\");\n        if (env->offset > 0) {\n            /* On stack */", "outside the environment|bound|dereference")])
+U(id="vm.op.upvalue.set", entry="h_vo_upvalue_set", defines=["-DVO_UPVALUE"], assumes=UPV_ASS,
+  clause="JOP_SET_UPVALUE: upvalue C of environment B receives the value of slot A - in the environment when it is closed, on the owning fiber's stack when it is still open (including the running frame itself); a bad environment or upvalue index raises; nothing else changes; next instruction",
+  mutants=[M("offset-forgotten", "env->as.fiber->data[env->offset + vindex] = stack[A];", "env->as.fiber->data[vindex] = stack[A];", "holds the source slot's value|keeps its value"),
+           M("env-check-off-by-one", "        vm_assert(func->def->environments_length > eindex, \"invalid upvalue environment\");\n        env = func->envs[eindex];\n        vm_assert(env->length > vindex, \"invalid upvalue index\");\n        vm_assert(janet_env_valid(env), \"invalid upvalue environment\");\n        if (env->offset > 0) {\n            env->as.fiber", "        vm_assert(func->def->environments_length >= eindex, \"invalid upvalue environment\");\n        env = func->envs[eindex];\n        vm_assert(env->length > vindex, \"invalid upvalue index\");\n        vm_assert(janet_env_valid(env), \"invalid upvalue environment\");\n        if (env->offset > 0) {\n            env->as.fiber", "outside the function's environments|bound|dereference")])
+A_INT = "an interrupt request is the auto_suspend flag of the VM (janet_interpreter_interrupt)"
+U(id="vm.op.jump", entry="h_vo_jump", defines=["-DVO_JUMPS"], assumes=[A_INT],
+  clause="JOP_JUMP: execution continues at the instruction the signed 24-bit offset away (forwards and backwards); a backward jump honours a requested interrupt by suspending the fiber at the jump; no slot changes",
+  mutants=[M("unsigned-offset", "VM_OP(JOP_JUMP)\n    vm_maybe_auto_suspend(DS <= 0);\n    pc += DS;", "VM_OP(JOP_JUMP)\n    vm_maybe_auto_suspend(DS <= 0);\n    pc += D;", "documented next instruction|bounds|pointer"),
+           M("no-interrupt-check", "VM_OP(JOP_JUMP)\n    vm_maybe_auto_suspend(DS <= 0);", "VM_OP(JOP_JUMP)\n    vm_maybe_auto_suspend(DS < -5);", "honours a requested interrupt")])
+JC = [("jump.if", "JOP_JUMP_IF", "the slot is truthy (anything but nil and false)", "    if (janet_truthy(stack[A])) {\n        vm_maybe_auto_suspend(ES <= 0);\n        pc += ES;\n    } else {\n        pc++;\n    }", "    if (!janet_checktype(stack[A], JANET_NIL)) {\n        vm_maybe_auto_suspend(ES <= 0);\n        pc += ES;\n    } else {\n        pc++;\n    }"),
+      ("jump.ifnot", "JOP_JUMP_IF_NOT", "the slot is falsey (nil or false)", "    if (janet_truthy(stack[A])) {\n        pc++;\n    } else {\n        vm_maybe_auto_suspend(ES <= 0);\n        pc += ES;\n    }", "    if (!janet_checktype(stack[A], JANET_NIL)) {\n        pc++;\n    } else {\n        vm_maybe_auto_suspend(ES <= 0);\n        pc += ES;\n    }"),
+      ("jump.ifnil", "JOP_JUMP_IF_NIL", "the slot is nil (false is not nil)", "    if (janet_checktype(stack[A], JANET_NIL)) {\n        vm_maybe_auto_suspend(ES <= 0);\n        pc += ES;\n    } else {\n        pc++;\n    }", "    if (!janet_truthy(stack[A])) {\n        vm_maybe_auto_suspend(ES <= 0);\n        pc += ES;\n    } else {\n        pc++;\n    }"),
+      ("jump.ifnotnil", "JOP_JUMP_IF_NOT_NIL", "the slot is not nil (false is not nil)", "    if (janet_checktype(stack[A], JANET_NIL)) {\n        pc++;\n    } else {\n        vm_maybe_auto_suspend(ES <= 0);\n        pc += ES;\n    }", "    if (!janet_truthy(stack[A])) {\n        pc++;\n    } else {\n        vm_maybe_auto_suspend(ES <= 0);\n        pc += ES;\n    }")]
+for key, op, cond, body, mbody in JC:
+    U(id="vm.op." + key, entry="h_vo_jump_cond", defines=["-DVO_JUMPS", "-DVO_JOP=" + op], assumes=[A_INT],
+      clause="%s: if %s, execution continues at the instruction the signed 16-bit offset away (a backward jump honours a requested interrupt), otherwise at the next instruction; no slot changes" % (op, cond),
+      mutants=[M("nil-false-confused", "VM_OP(%s)\n%s" % (op, body), "VM_OP(%s)\n%s" % (op, mbody), "documented next instruction|interrupt|leave the interpreter")])
+U(id="vm.op.typecheck", entry="h_vo_typecheck", defines=["-DVO_TYPECHECK"],
+  clause="JOP_TYPECHECK: continues at the next instruction iff the type of slot A is in the 16-bit type mask E, raises otherwise; no slot changes",
+  mutants=[M("mask-shifted", "    if (!(janet_checktypes((X), (TS)))) { \\", "    if (!(janet_checktypes((X), (TS) << 1))) { \\", "not in the mask")])
+U(id="vm.op.error", entry="h_vo_error", defines=["-DVO_ERROR"],
+  clause="JOP_ERROR (error e): the fiber leaves the interpreter with JANET_SIGNAL_ERROR and the operand unchanged as the error value; frame committed at the instruction; no slot changes",
+  mutants=[M("wrong-signal", "vm_return(JANET_SIGNAL_ERROR, stack[A]);", "vm_return(JANET_SIGNAL_USER0, stack[A]);", "error signal"),
+           M("wrong-slot", "vm_return(JANET_SIGNAL_ERROR, stack[A]);", "vm_return(JANET_SIGNAL_ERROR, stack[B]);", "error value")])
+U(id="vm.op.return", entry="h_vo_return", defines=["-DVO_RETURN"], link_keep={"fiber.c": ["janet_fiber_status", "janet_fiber_popframe"], "wrap.c": WRAP},
+  assumes=["the frame has no captured environment (detaching is the contract of janet_fiber_popframe, C05 units)", "only the return from the frame the interpreter was entered with is covered; the return into a calling Janet frame is covered by the C05 call/return units"],
+  clause="JOP_RETURN / JOP_RETURN_NIL from the entrance frame: run_vm returns JANET_SIGNAL_OK with the value of slot D (24-bit register) resp. nil, unchanged, and the frame is popped; no slot changes",
+  mutants=[M("returns-slot-A", "    VM_OP(JOP_RETURN) {\n        Janet retval = stack[D];", "    VM_OP(JOP_RETURN) {\n        Janet retval = stack[A];", "value returned"),
+           M("nil-return-not-nil", "    VM_OP(JOP_RETURN_NIL) {\n        Janet retval = janet_wrap_nil();", "    VM_OP(JOP_RETURN_NIL) {\n        Janet retval = stack[0];", "value returned")])
 
 json.dump({"units": units}, open(os.path.join(V, 'units', 'C15_vm.json'), 'w'), indent=1)
 print('%d units' % len(units))
